@@ -67,10 +67,15 @@ SCHED_BINS = [f"schedsim-{i:02d}" for i in range(16)]
 SCHED_BINS_THOROUGH = [f"schedsim-{i:02d}" for i in range(16, 32)]
 
 
+# Both tiers of C07 / C08 / C12: 12 schedules of 5-6 small tasks with two adjacent wide stages (several next-stage
+# candidates accepted or refused one after another while the running stage holds the claims of several tasks).
+SCHED_BINS_STAGED = [f"schedsim-{i:02d}" for i in range(32, 38)]
+
+
 def e2(profile, quick_per_bin, thorough_per_bin):
     def jobs(n, bins):
         return [{"binary": b, "package": b, "profile": profile, "runs": n, "chunks_per_job": 1} for b in bins]
-    return {"quick": jobs(quick_per_bin, SCHED_BINS), "thorough": jobs(thorough_per_bin, SCHED_BINS + SCHED_BINS_THOROUGH),
+    return {"quick": jobs(quick_per_bin, SCHED_BINS + SCHED_BINS_STAGED), "thorough": jobs(thorough_per_bin, SCHED_BINS + SCHED_BINS_STAGED + SCHED_BINS_THOROUGH),
             "timeout_s": {"quick": 1200, "thorough": 7200}}
 
 
@@ -100,7 +105,7 @@ STUB_E2 = ["rayon-core join / join_context / current_num_threads (vendored copy 
 ASSUME_E2 = [
     "sampling of schedules x worlds x scheduler decisions: a clean batch is evidence, not proof",
     "brood-internal code between two harness callbacks is atomic to the scheduler; overlap is judged structurally from the recorded fork/join tree (series-parallel paths), so one run covers all interleavings of its tree",
-    "the schedule catalogue is generated at build time (48 schedules, 171 tasks) because staging is decided by trait resolution; schedules whose tasks view no resource (38 of the 48) also run on a world without resources",
+    "the schedule catalogue is generated at build time (48 schedules / 171 tasks, plus 12 staged schedules / 66 tasks for C07 C08 C12, plus 32 random ones in the thorough tier) because staging is decided by trait resolution; schedules whose tasks view no resource also run on a world without resources",
     "the simulated join reproduces rayon's contract: both closures run to completion, a's panic wins",
 ]
 
